@@ -90,6 +90,14 @@ def c06(tier):
                     data += bits_of(rng.getrandbits(56), 56)
                 g.append(run1(hexs(with_ap(data, a))))
         groups.append(g)
+    # -f lists naming both carriers in any order: the squawk follows the last DF5 / DF21
+    for fl in (['-f', '21', '-f', '5'], ['-f', '5', '-f', '21'], ['-f', '20', '-f', '21', '-f', '4', '-f', '5'], ['-f', '21', '-f', '17', '-f', '5', '-f', '11']):
+        a = 0x4b0e00 + len(groups) % 200
+        g = [reset(fl), run1(df11(5, a))]
+        for _ in range(12):
+            g.append(run1(short(5, rng.getrandbits(13), a, rng.getrandbits(14))))
+            g.append(run1(long_(21, rng.getrandbits(13), bits_of(rng.getrandbits(56), 56), a)))
+        groups.append(g)
     # squawks that return to earlier values, from both carriers, one line per run vs one run
     for k in range(6 if tier == 'quick' else 80):
         a = 0x4b0c00 + k
@@ -129,8 +137,9 @@ def c05(tier):
     groups += sweep_groups(lambda v, a, r: long_(20, v, bits_of(r.getrandbits(56), 56), a, r.getrandbits(14)),
                            c13 if tier == 'thorough' else c13[::2], OPTSETS[:3], rng, setups=CAP_SETUPS)
     for tc in tcs:
+        # (the CPR fields are random, or one / both of them zero: the altitude does not depend on them)
         groups += sweep_groups(lambda v, a, r: df17(5, a, me_airpos(tc, r.getrandbits(2), v, r.getrandbits(1),
-                                                                    r.getrandbits(17), r.getrandbits(17))),
+                                                                    r.choice([0, r.getrandbits(17), r.getrandbits(17)]), r.choice([0, r.getrandbits(17), r.getrandbits(17)]))),
                                c12 if tier == 'thorough' else c12[::max(1, len(tcs) - 1)], OPTSETS[:3], rng)
     # a live row: position just decoded from an even/odd pair, then altitudes from all three carriers that keep returning to earlier
     # values (A B A C ...), each frame judged; and the same kind of sequence one line per run vs one run
@@ -603,7 +612,8 @@ def c04(tier):
         a = int(fr[2:8], 16)
         for ctx in (0, 1):
             for i in range(0, len(pats), 300):
-                g = [reset(['-U'] if (i // 300) % 2 else [])]
+                # (options that look at the frame before it is applied: message log of its own / another format, filter, counters)
+                g = [reset((['-U'] if (i // 300) % 2 else []) + [[], ['-M', '17', '-M', '18', '-M', '11'], ['-M', '4'], ['-c'], ['-f', '17', '-f', '18', '-f', '11', '-c']][(i // 300) % 5])]
                 if ctx:
                     g.append(run1(fr))                          # the valid squitter itself: applied
                     g.append(run1(short(5, enc_squawk(1, 2, 3, 4), a)))
@@ -1307,6 +1317,8 @@ def c11(tier):
             pool += other_format_frames(a, rng)
             # Comm-B replies that are a valid BDS 5,0 and whose bits also look like a BDS 6,0 (track >= 180 deg sets the bit that is
             # the IAS status of 6,0), and genuine 6,0 replies: one reply is one register
+            pool += [long_(20, enc_alt13(33000), mb17(1, 1, 0, 1), a), long_(20, enc_alt13(33000), mb17(1, 0, 1, 0), a), long_(20, enc_alt13(33000), mb17(1, 1, 1, 0), a),
+                     df17(5, a, me_ident(rng.randint(1, 4), rng.randint(1, 7), [32] * 8)), df17(5, a, me_ident(4, 5, callsign_codes('CAT45')))]
             for _ in range(3):
                 gs_ = rng.randint(60, 240)
                 pool.append(long_(rng.choice([20, 21]), enc_alt13(33000), mb50(rng.randint(-100, 100) or 1, rng.randrange(1024, 2048), gs_, rng.randint(-100, 100) or 1, max(1, min(180, gs_ + rng.randint(-30, 30)))), a))
@@ -2018,6 +2030,15 @@ def c15(tier):
                 r['dist'] = [100 * rng.randrange(0, 9000)] if rng.random() < .8 else []
                 rows.append(r)
             cases.append({'id': len(cases), 'i': '', 'o': o, 'rows': rows})
+    # a row is a row until the sweep removes it: tables in which some rows are older than delete_after (default 60 s, and -d 2 / -d 0)
+    for t in range(6 if tier == 'quick' else 60):
+        rows = []
+        for a in rng.sample(range(1, 0xFFFFFF), rng.randrange(3, 8)):
+            r = blank_row(a); r['sq'] = [rng.choice([7, 1200, 4321, 7500, 7600, 7700, 7777])]; r['alt'] = [rng.randrange(0, 40000, 25)]
+            r['ts'] = rng.choice([0, 1000, 3000, 59000, 61000, 200000])
+            rows.append(r)
+        cases.append({'id': len(cases), 'i': rng.choice(['', 'e']), 'o': rng.choice(['s', 'a', 'sA', 'As']), 'rows': rows,
+                      'argv': [[], ['-d', '2'], ['-d', '0']][t % 3]})
     events = run_print(binary, cases, 'c15')
     for e in cli_table_events(rng, 4 if tier == 'quick' else 60, ['sA', 'N', 'a', 'dV', '', 'W', 'v', 'c', 'A', 'zz']):
         e['i'] = len(events) + 1
@@ -2548,6 +2569,19 @@ def c17(tier):
         nh += 1
     rep.extra['row_histories'] = nh
     conform(rep, 'C17', groups, maxlen=3000)
+    # the code as SHOWN in the RG column of a refresh, for rows of several ages (young, silent for half the expiry time, overdue)
+    pcases = []
+    for k, fs in enumerate(['', 'aAews', 'e', 'w']):
+        rows = []
+        for j, (a, reg) in enumerate([(0x4CA86E, 'IE'), (0xA00001, 'US'), (0x3C6586, 'DE'), (0x000001, '??'), (0x7C0000, 'AU'), (0x0A0001, 'DZ')]):
+            r = filled_row(a, 'min', rng) if j % 2 else blank_row(a)
+            r['reg'] = reg; r['regcp'] = cli.cps(reg); r['ts'] = [0, 29000, 31000, 45000, 59000, 75000][(j + k) % 6]
+            rows.append(r)
+        pcases.append({'id': len(pcases), 'i': fs, 'o': '', 'rows': rows})
+    pev = run_print(binary, pcases, 'c17')
+    ptr = os.path.join(vlib.workdir(), 'c17print.trace.ndjson')
+    vlib.write_ndjson(ptr, pev)
+    rep.add_validation(vlib.validate([ptr], 'C17'))
     rep.evaluations += 2 * (1 << 24)
     rep.nontrivial |= set((r['lo'], r['hi'], r['reg']) for r in ev['runs'])
     rep.samples = ev['runs'][:3] + [r for r in ev['runs'] if r['reg'] == 'IE'][:1]
